@@ -48,6 +48,32 @@ def _split(self, sep=None, maxsplit=-1):
 BytesLike.split = _split
 
 
+# --- symbolic bytes.splitlines (stock version realises through .data and fails on a symbolic slice length) -------
+def _splitlines(self, keepends=False):
+    out = []
+    n = len(self)
+    i = 0
+    start = 0
+    while i < n:
+        c = self[i]
+        if c == 10:
+            nxt = i + 1
+        elif c == 13:
+            nxt = i + 2 if (i + 1 < n and self[i + 1] == 10) else i + 1
+        else:
+            i += 1
+            continue
+        out.append(self[start:nxt] if keepends else self[start:i])
+        start = nxt
+        i = nxt
+    if start < n:
+        out.append(self[start:n])
+    return out
+
+
+BytesLike.splitlines = _splitlines
+
+
 # --- int(symbolic bytes / str, base) -------------------------------------------------------
 def _digit_val(c):
     if 48 <= c <= 57:
@@ -217,6 +243,11 @@ def selftest():
                         cases += 1
                         if got != d.split(sep, n):
                             bad.append(("split", d, sep, n, got))
+                for keep in (False, True):
+                    got = [bytes(realize(p)) for p in sb.splitlines(keep)]
+                    cases += 1
+                    if got != d.splitlines(keep):
+                        bad.append(("splitlines", d, keep, got))
                 for base in (10, 16):
                     try:
                         want = int(d, base)
@@ -243,6 +274,15 @@ def selftest():
                     cases += 1
                     if got != want:
                         bad.append(("fmt", fmt, s, got, want))
+            for n in range(3, 5):
+                for t in itertools.product([0x0d, 0x0a, 0x41, 0x0b, 0x0c, 0x1c, 0x85], repeat=n):
+                    d = bytes(t)
+                    sb = SymbolicBytes(list(d))
+                    for keep in (False, True):
+                        got = [bytes(realize(p)) for p in sb.splitlines(keep)]
+                        cases += 1
+                        if got != d.splitlines(keep):
+                            bad.append(("splitlines", d, keep, got))
             import urllib.parse as up
             ualpha = [0x25, 0x34, 0x31, 0x67, 0x46, 0x61, 0xe9, 0x2f]
             for n in range(0, 5):
